@@ -204,11 +204,51 @@ def fidelity(n=40):
     return (core.EXIT_HARNESS if bad else 0), {"compared": done, "with_write_in_flight": inflight, "by_seam": kinds, "mismatches": bad}
 
 
+# ------------------------------------------------------------------------ reach
+REACH = {
+    "C20": ["faults_fired_with_write_in_flight", "reach_probes/sync via api", "reach_probes/sync via cli", "reach_probes/path_style=symlink_dir",
+            "reach_probes/path_style=tilde", "reach_probes/python -O", "reach_probes/persistent fault planned", "invocation_table_rows",
+            "fidelity_tier_real_sigkill/compared", "faults_fired_by_kind_and_seam/KILL@write", "faults_fired_by_kind_and_seam/IOERR@close_w",
+            "faults_fired_by_kind_and_seam/IOERR@replace", "faults_fired_by_kind_and_seam/CONVERT@convert:black", "faults_fired_by_kind_and_seam/INTERRUPT@step"],
+    "C10": ["probes/r3_checked", "probes/r4_checked", "reach_probes/env:edit_truth", "reach_probes/env_transform:crlf", "reach_probes/sync with one file named under two kinds",
+            "reach_probes/sync with two files of one kind"],
+    "C09": ["probes/a2_checked", "a3_interface_checks/ok", "prestate_cells/class|class|missing|cli", "prestate_cells/function|class|stale|api", "prestate_cells/argparse_function|function|empty|cli"],
+    "C11": ["probes/c11_checked"],
+    "C14": ["probes/sp_checked"],
+}
+
+
+def reach():
+    """After quick runs: every probe listed above must be non-zero in the evidence files (a probe stuck at zero means the
+    workload or the fault mix has to change)."""
+    bad = 0
+    for prop, keys in REACH.items():
+        path = os.path.join(core.VERIF, "evidence", "%s.json" % prop)
+        if not os.path.isfile(path):
+            print("  no evidence for %s" % prop)
+            bad += 1
+            continue
+        with open(path) as f:
+            cov = json.load(f)["coverage"]
+        for key in keys:
+            cur = cov
+            for part in key.split("/"):
+                cur = cur.get(part, 0) if isinstance(cur, dict) else 0
+            ok = bool(cur)
+            if not ok:
+                bad += 1
+            print("  %s %-6s %-70s %s" % ("ok  " if ok else "ZERO", prop, key, cur if not isinstance(cur, dict) else "..."))
+    print("reach self-test: %d probe(s) at zero" % bad)
+    return core.EXIT_HARNESS if bad else 0
+
+
 def main(argv):
     what = argv[0] if argv else "all"
     rc = 0
     if what in ("determinism", "all"):
         rc |= determinism(int(argv[1]) if len(argv) > 1 and what == "determinism" else 200)
+    if what == "reach":
+        rc |= reach()
     if what in ("fidelity", "all"):
         rc |= fidelity(int(argv[1]) if len(argv) > 1 and what == "fidelity" else 40)[0]
     if what in ("sensitivity", "all"):
